@@ -5,6 +5,7 @@ graph-edit applier; embeddings from the reference matcher of C08) beside
 Read(rule_text) and ReactionQuery.RunReactants(mol); products compared as
 multisets of labelled graphs up to isomorphism.
 """
+import random
 import collections
 
 from rdkit import Chem
@@ -283,8 +284,51 @@ def check_rule(ctx, ast, rng, text=None, only=None, atom_order=None):
                                               for p in prods[0]]})
 
 
+def canon_products(prods):
+    return repr(sorted(sorted(Chem.MolToSmiles(p) for p in ps)
+                       for ps in prods))
+
+
+def check_threads(ctx, key=None, rounds=3):
+    """Applying a rule is a function of (rule text, molecule): four threads,
+    each reading its OWN rule object from the text and running it, at the
+    same time, get the product sets a lone caller gets (which the ordinary
+    workload judges against the declared edits).  One rule object is not
+    shared between threads here: RunReactants keeps the molecule being
+    transformed on the rule object, and the statement quantifies over rules
+    and molecules, not over schedules of one object (see DESIGN B.18)."""
+    from vmon.core import threads as TH
+    from pgradd.RINGParser import Read
+    key = key or 'thr%d_%d' % (ctx.seed, ctx.shard)
+    r = random.Random('c16thr:%s' % key)
+    T = X.templates() + X.systematic_templates()
+    rules = []
+    for desc, atoms, bonds, edits in r.sample(T, 8):
+        ast = {'name': 'r', 'desc': desc, 'kind': 'balanced',
+               'reactant': X.frag(atoms, bonds), 'edits': list(edits)}
+        rules.append(X.render_rule(ast, r))
+    pool = mol_pool(ctx.tier)
+    mols = [m for _, m, _ in r.sample(pool, 5)]
+    mols += [x[1] for x in big_pool(r, 1)]
+
+    def make_jobs():
+        jobs = []
+        for ri, text in enumerate(rules):
+            for mi, mol in enumerate(mols):
+                def thunk(text=text, mol=mol):
+                    return canon_products(Read(text).RunReactants(
+                        Chem.Mol(mol)))
+                jobs.append(((ri, mi), thunk))
+        return jobs
+    res = TH.stress(make_jobs, nthreads=4, rounds=rounds)
+    TH.judge(ctx, res, 'rule reading and application, one rule object per '
+             'thread', {'what': 'thread stress', 'key': key})
+
+
 def run_shard(ctx):
     r = ctx.sub_rng('c16', ctx.shard)
+    if ctx.shard % 4 == 3:
+        check_threads(ctx)
     n = 500 if ctx.tier == 'quick' else 4000
     T = X.templates() + X.systematic_templates()
     CT = X.charge_templates()
@@ -306,6 +350,8 @@ def run_shard(ctx):
 
 def replay(ctx, case):
     from pgradd.RINGParser import Read
+    if case.get('what') == 'thread stress':
+        return check_threads(ctx, case['key'], rounds=10)
     o = observe(Read, case['rule'])
     if 'exc' in o:
         ctx.violation('rule not readable: %s' % o['exc'], case,
